@@ -4,11 +4,15 @@ package checks
 import (
 	_ "verif/harness/internal/c03"
 	_ "verif/harness/internal/c07"
+	_ "verif/harness/internal/c08"
 	_ "verif/harness/internal/c10"
+	_ "verif/harness/internal/c12"
 	_ "verif/harness/internal/c13"
 	_ "verif/harness/internal/c14"
 	_ "verif/harness/internal/c15"
 	_ "verif/harness/internal/c16"
+	_ "verif/harness/internal/c17"
 	_ "verif/harness/internal/c18"
 	_ "verif/harness/internal/c19"
+	_ "verif/harness/internal/c20"
 )
